@@ -5,11 +5,13 @@
 -/
 import P2P.Drv.Proto
 import P2P.Drv.Pqr
+import P2P.Drv.PdbRead
+import P2P.Drv.Dx
 
 open P2P P2P.Drv
 
 def allHandlers : List (String × Handler) :=
-  PqrD.handlers
+  PqrD.handlers ++ PdbReadD.handlers ++ DxD.handlers
 
 def answer (line : Str) : Str :=
   let line := line.filter (fun c => c ≠ '\n' && c ≠ '\r')
